@@ -102,6 +102,38 @@ def WellFormed (join : List String → String) (suites : List Suite) (cases : Li
 instance (join : List String → String) (suites : List Suite) (cases : List Case) (mode : Mode) :
     Decidable (WellFormed join suites cases mode) := by unfold WellFormed; infer_instance
 
+/-! ### when names cannot collide -/
+
+/-- the '/'-separated segments of a name -/
+def segments (x : String) : List (List Char) := splitSlash x.toList
+
+/-- a path segment `path.Clean` leaves alone: not empty, not `.`, not `..` -/
+def CleanSeg (seg : List Char) : Prop := seg ≠ [] ∧ seg ≠ ['.'] ∧ seg ≠ ['.', '.']
+
+instance (seg : List Char) : Decidable (CleanSeg seg) := by unfold CleanSeg; infer_instance
+
+/-- a name `path.Join` does not rewrite: every segment is clean (so: not empty, no leading,
+trailing or doubled slash, no `.` or `..` segment) -/
+def CleanName (x : String) : Prop := ∀ seg ∈ segments x, CleanSeg seg
+
+instance (x : String) : Decidable (CleanName x) := by unfold CleanName; infer_instance
+
+/-- The condition under which full names identify definitions: every suite name and every test
+name is clean, and no suite name is, segment-wise, a proper prefix of another suite's name
+(`a` and `a/b`: test `b/c` of the first and test `c` of the second would both be `a/b/c`). -/
+def NamesClean (suites : List Suite) : Prop :=
+  (∀ s ∈ suites, CleanName s.name ∧ ∀ t ∈ s.tests, CleanName t.name) ∧
+  (∀ s₁ ∈ suites, ∀ s₂ ∈ suites, segments s₁.name <+: segments s₂.name → s₁.name = s₂.name)
+
+instance (suites : List Suite) : Decidable (NamesClean suites) := by unfold NamesClean; infer_instance
+
+/-- no definition is duplicated: suite names differ and, inside a suite, test names differ -/
+def DefinitionsDistinct (suites : List Suite) : Prop :=
+  (suites.map (·.name)).Nodup ∧ ∀ s ∈ suites, (s.tests.map (·.name)).Nodup
+
+instance (suites : List Suite) : Decidable (DefinitionsDistinct suites) := by
+  unfold DefinitionsDistinct; infer_instance
+
 /-- "grouped under exactly one server instance": the buckets have distinct keys, every
 permutation name sits in exactly one bucket, exactly once, that bucket's key is the permutation's
 (protocol, version, TLS, client-certificate) projection, and buckets hold nothing else. -/
